@@ -136,7 +136,7 @@ def run(ctx, prog):
                 continue
             r0 = b.reach([0], avoid_edges=medges)
             bad = [(i, what) for i, what in sinks if i in r0]
-            k = sum(1 for x in ctx.instances if x['rule'] == 'C04.R1' and x['key'].startswith('C04.R1 | %s | %s' % (b.short, nm)))
+            k = sum(1 for x in ctx.instances if x.get('config') == ctx.config and x['rule'] == 'C04.R1' and x['key'].startswith('C04.R1 | %s | %s' % (b.short, nm)))
             ctx.inst('C04.R1', b.short, '%s #%d served only past the canonical Match edge' % (nm, k), bool(vs) and bool(medges) and not bad,
                      ('value obtained at %s reaches %s at %s without the Match edge of its own canonical check' % (s.loc, bad[0][1], b.loc_of(bad[0][0]))) if bad else
                      ('no canonical_vector_state call on the value obtained at %s' % s.loc) if not vs else
@@ -162,7 +162,7 @@ def run(ctx, prog):
                             return True
             return False
         ok = all(_validated(a) for a in alts)
-        k = sum(1 for x in ctx.instances if x['rule'] == 'C04.R1' and x['key'].startswith('C04.R1 | %s | merge' % b.short.split('::{')[0]))
+        k = sum(1 for x in ctx.instances if x.get('config') == ctx.config and x['rule'] == 'C04.R1' and x['key'].startswith('C04.R1 | %s | merge' % b.short.split('::{')[0]))
         ctx.inst('C04.R1', b.short.split('::{')[0], 'merge #%d gets validated hot candidates' % k, ok, 'hot operand: %s' % r[:160])
     ctx.floor('C04.R1', 'merge_knn_results call sites', n_merge, 3, 'single, batch, timed')
     hk = sorted(set(c.body.short.split('::{')[0] for c in prog.callers_of('HotTier::knn_search', 'HotTier::knn_search_with_cancel') if 'hot_tier::' not in c.body.id))
@@ -384,4 +384,70 @@ def run(ctx, prog):
     ctx.inst('C04.R5', rc.short, 'repair insert only when a canonical component is missing', bool(ci) and bool(none_e) and all(c.bb not in r0 for c in ci),
              'None edges %d; repair insert %s' % (len(none_e), 'reachable with both components present' if any(c.bb in r0 for c in ci) else 'only behind a None edge'))
     srcs = [flow.render(flow.Origin(rc).of_operand(a)) for a in (ci[0].args[2:4] if ci else [])]
+    # ------------------------------------------------------------------ R6 positional agreement of bulk answers
+    ctx.rule('C04.R6', 'a bulk lookup answers position by position: the ids handed to the canonical bulk fetch are the pending positions mapped through doc_ids, '
+                       'in order and one for one (the list is only read between its construction and the fetch, the position list is not touched after it), and '
+                       'answer i of the fetch is written back through position i of that same list — otherwise a document is answered with another document\'s content '
+                       'once the mirror no longer serves it')
+    bq = ctx.body('C04.R6', 'TieredEngine::bulk_query_with_source')
+    if bq is not None:
+        of6 = flow.Origin(bq)
+        ov6 = flow.Origin(bq, stop_at_vars=True)
+        n6 = 0
+        for c in bq.calls:
+            if not (c.callee and re.search(r'HnswBackend::bulk_fetch$', c.callee) and len(c.args) > 1):
+                continue
+            n6 += 1
+            full = flow.render(of6.of_operand(c.args[1]))
+            var = flow.render(ov6.of_operand(c.args[1]))
+            m6 = re.match(r'^Iterator::collect\(Iterator::map\(slice::iter\((.*)\), closure:([\w:<> ]*\{closure#\d+\})\{arg:doc_ids\}\)\)$', full)
+            shape = m6 is not None
+            # the closure is position -> doc_ids[position]
+            clo_ok = False
+            if m6:
+                for b in prog.family(bq):
+                    if b.id.endswith(m6.group(2)) or b.short.endswith(m6.group(2)):
+                        clo_ok = flow.render(flow.Origin(b).of_local(0)) == 'cap:doc_ids[]'
+            # the id list is only read
+            idl = None
+            mm = re.match(r'^var:(\w+)$', var)
+            touched = []
+            if mm:
+                idl = mm.group(1)
+                for x in bq.calls:
+                    for a in x.args:
+                        if a.get('k') in ('mv', 'cp') and flow.render(ov6.of_operand(a)) == 'var:' + idl and bq.locals[a['pl']['l']].startswith('&mut'):
+                            touched.append(flow.short(x.callee or '?'))
+            # the position list: found through the write-back Index::index(POS, enumerate(fetch).0)
+            wb = [x for x in bq.calls if x.callee and re.search(r'Index<.*>>::index$|index::Index.*::index$', x.callee) and len(x.args) > 1 and
+                  re.search(r'Iterator::enumerate\(HnswBackend::bulk_fetch\(.*\)\)\)@Some→Some\.0\.0$', flow.render(of6.of_operand(x.args[1])))]
+            pos_same = bool(wb) and m6 is not None and all(flow.render(of6.of_operand(x.args[0])) == m6.group(1) for x in wb)
+            posv = flow.render(ov6.of_operand(wb[0].args[0])) if wb else '?'
+            if not wb and m6 is not None:
+                # the other idiom: positions.iter().zip(answers)
+                for x in bq.calls:
+                    if x.callee and x.callee.endswith('Iterator::zip') and len(x.args) == 2:
+                        rs = [flow.render(of6.of_operand(a)) for a in x.args]
+                        pi = [k_ for k_, r_ in enumerate(rs) if re.match(r'^(slice::iter|.*IntoIterator>::into_iter|.*into_iter)\(%s\)$' % re.escape(m6.group(1)), r_)]
+                        ai = [k_ for k_, r_ in enumerate(rs) if 'HnswBackend::bulk_fetch(' in r_]
+                        if pi and ai and pi[0] != ai[0]:
+                            wb = [x]
+                            pos_same = True
+                            posv = re.sub(r'^.*\((var:\w+)\)$', r'\1', flow.render(ov6.of_operand(x.args[pi[0]])))
+            # no mutation of the position list once the ids were collected
+            late = []
+            if wb and re.match(r'^var:\w+$', posv):
+                after = bq.reach([c.bb]) | {c.bb}
+                coll = [x.bb for x in bq.calls if x.callee and x.callee.endswith('Iterator::collect') and x.dest is not None and bq.var_local(idl or '') and x.dest['l'] in bq.var_local(idl or '')]
+                if coll:
+                    after |= bq.reach(coll)
+                for x in bq.calls:
+                    for a in x.args:
+                        if a.get('k') in ('mv', 'cp') and flow.render(ov6.of_operand(a)) == posv and bq.locals[a['pl']['l']].startswith('&mut') and x.bb in after:
+                            late.append(flow.short(x.callee or '?'))
+            ok6 = shape and clo_ok and not touched and pos_same and not late
+            ctx.inst('C04.R6', bq.short, 'cold answers are written back through the position list the ids were built from', ok6,
+                     'ids = %s; closure is position → doc_ids[position]: %s; in-place changes of the id list: %s; write-back indexes %s (same list: %s); position list changed after the ids were built: %s'
+                     % (full[:110], clo_ok, touched or 'none', posv, pos_same, late or 'no'))
+        ctx.floor('C04.R6', 'canonical bulk fetches in bulk_query_with_source', n6, 1, 'the cold fallback')
     ctx.stat('functions_analysed', len(set(i['key'].split(' | ')[1] for i in ctx.instances)))
